@@ -241,17 +241,17 @@ void checkOne(vf::Ctx & c, const Problem & pb, int type, const MatrixXd & H, con
   const bool isFloat = type >= 2;
   const double eps = isFloat ? 1.1920929e-07 : 2.220446049250313e-16;
   const char * tn = typeName(D, type);
-  c.check(H.allFinite(), vf::fmt("%s: estimate contains non-finite entries", tn));
+  VF_CHECK(c, H.allFinite(), "%s: estimate contains non-finite entries", tn);
   MatrixXd R = H.block(0, 0, D, D);
   VectorXd t = H.block(0, D, D, 1);
   // (i) proper rotation, last row
   double orth = (R.transpose() * R - MatrixXd::Identity(D, D)).norm();
   c.maxStat(isFloat ? "orthonormality(float)" : "orthonormality(double)", orth);
-  c.check(orth <= 256 * eps, vf::fmt("%s: linear part not orthonormal (%.3g)", tn, orth));
+  VF_CHECK(c, orth <= 256 * eps, "%s: linear part not orthonormal (%.3g)", tn, orth);
   double det = R.determinant();
-  c.check(std::fabs(det - 1.0) <= 256 * eps, vf::fmt("%s: determinant of the linear part is %.9g, expected +1 (n=%zu used pairs, spread s2/s1=%.3g s3/s1=%.3g)", tn, det, pb.corr.size(), pb.spread2, pb.spread3));
-  for (int k = 0; k < D; ++k) {c.check(H(D, k) == 0.0, vf::fmt("%s: last row entry %d is %.9g, expected 0", tn, k, H(D, k)));}
-  c.check(H(D, D) == 1.0, vf::fmt("%s: H(last,last)=%.17g, expected 1", tn, H(D, D)));
+  VF_CHECK(c, std::fabs(det - 1.0) <= 256 * eps, "%s: determinant of the linear part is %.9g, expected +1 (n=%zu used pairs, spread s2/s1=%.3g s3/s1=%.3g)", tn, det, pb.corr.size(), pb.spread2, pb.spread3);
+  for (int k = 0; k < D; ++k) {VF_CHECK(c, H(D, k) == 0.0, "%s: last row entry %d is %.9g, expected 0", tn, k, H(D, k));}
+  VF_CHECK(c, H(D, D) == 1.0, "%s: H(last,last)=%.17g, expected 1", tn, H(D, D));
 
   if (pb.spread2 < 0.05) {return;}  // (nearly) collinear: outside the exact-recovery quantifier
   // magnitudes
@@ -264,14 +264,14 @@ void checkOne(vf::Ctx & c, const Problem & pb, int type, const MatrixXd & H, con
     if (isFloat) {relR = std::max(relR, 64 * eps * (mag / pb.size) / pb.spread2);}
     double eR = (R - pb.Rtrue).norm();
     c.maxStat(isFloat ? "noiseless-rotation-error(float)" : "noiseless-rotation-error(double)", eR);
-    c.check(eR <= relR, vf::fmt("%s: rotation differs from the true one by %.3g (tol %.3g; n=%zu, mode %d, s2/s1=%.3g, s3/s1=%.3g, precond=%g)", tn, eR, relR, pb.corr.size(), pb.cloudMode, pb.spread2, pb.spread3, pb.precond));
+    VF_CHECK(c, eR <= relR, "%s: rotation differs from the true one by %.3g (tol %.3g; n=%zu, mode %d, s2/s1=%.3g, s3/s1=%.3g, precond=%g)", tn, eR, relR, pb.corr.size(), pb.cloudMode, pb.spread2, pb.spread3, pb.precond);
     double eT = (t - pb.ttrue).norm();
     double tolT = relR * mag;
     c.maxStat(isFloat ? "noiseless-translation-error/mag(float)" : "noiseless-translation-error/mag(double)", eT / mag);
-    c.check(eT <= tolT, vf::fmt("%s: translation differs from the true one by %.3g (tol %.3g, magnitude %.3g, precond=%g)", tn, eT, tolT, mag, pb.precond));
+    VF_CHECK(c, eT <= tolT, "%s: translation differs from the true one by %.3g (tol %.3g, magnitude %.3g, precond=%g)", tn, eT, tolT, mag, pb.precond);
     double worst = 0;
     for (const auto & cr : pb.corr) {worst = std::max(worst, (R * pb.src.col(cr.first) + t - pb.tgt.col(cr.second)).norm());}
-    c.check(worst <= 2 * tolT, vf::fmt("%s: a source point lands %.3g away from its target (tol %.3g)", tn, worst, 2 * tolT));
+    VF_CHECK(c, worst <= 2 * tolT, "%s: a source point lands %.3g away from its target (tol %.3g)", tn, worst, 2 * tolT);
   } else {
     if (D == 3 && pb.spread3 < 0.05) {return;}  // noisy + (nearly) planar: optimum well defined but ill conditioned; only (i)
     // (iii) least-squares optimality: agreement with Umeyama, cost not larger than at nearby rigid motions
@@ -279,8 +279,8 @@ void checkOne(vf::Ctx & c, const Problem & pb, int type, const MatrixXd & H, con
     if (isFloat) {relR = std::max(relR, 64 * eps * (mag / pb.size) / std::min(pb.spread2, pb.spread3));}
     double eR = (R - Rref).norm(), eT = (t - tref).norm();
     c.maxStat(isFloat ? "umeyama-rotation-diff(float)" : "umeyama-rotation-diff(double)", eR);
-    c.check(eR <= relR, vf::fmt("%s: rotation differs from the Kabsch/Umeyama optimum by %.3g (tol %.3g)", tn, eR, relR));
-    c.check(eT <= relR * mag, vf::fmt("%s: translation differs from the Kabsch/Umeyama optimum by %.3g (tol %.3g)", tn, eT, relR * mag));
+    VF_CHECK(c, eR <= relR, "%s: rotation differs from the Kabsch/Umeyama optimum by %.3g (tol %.3g)", tn, eR, relR);
+    VF_CHECK(c, eT <= relR * mag, "%s: translation differs from the Kabsch/Umeyama optimum by %.3g (tol %.3g)", tn, eT, relR * mag);
     if (!isFloat) {
       double c0 = cost(pb, R, t);
       vf::Rng rng(0x5eedULL + pb.corr.size());
@@ -293,7 +293,7 @@ void checkOne(vf::Ctx & c, const Problem & pb, int type, const MatrixXd & H, con
         MatrixXd R2 = R * dR;
         VectorXd t2 = R * (ctr - dR * ctr) + t + dt;   // rotate about the centroid, then shift
         double c1 = cost(pb, R2, t2);
-        c.check(c0 <= c1 * (1 + 1e-9) + 1e-18 * mag * mag, vf::fmt("%s: cost %.17g is larger than %.17g at a nearby rigid motion: not least-squares optimal", tn, c0, c1));
+        VF_CHECK(c, c0 <= c1 * (1 + 1e-9) + 1e-18 * mag * mag, "%s: cost %.17g is larger than %.17g at a nearby rigid motion: not least-squares optimal", tn, c0, c1);
       }
     }
   }
@@ -325,7 +325,7 @@ void svdBody(vf::Ctx & c)
       double dR = (A.block(0, 0, D, D) - B.block(0, 0, D, D)).norm();
       double dT = (A.block(0, D, D, 1) - B.block(0, D, D, 1)).norm();
       c.maxStat("metamorphic-rotation-diff/tol", dR / tol);
-      c.check(dR <= tol && dT <= tol * mag, vf::fmt("%s changed the answer: rotation by %.3g, translation by %.3g (tol %.3g, %.3g)", what, dR, dT, tol, tol * mag));
+      VF_CHECK(c, dR <= tol && dT <= tol * mag, "%s changed the answer: rotation by %.3g, translation by %.3g (tol %.3g, %.3g)", what, dR, dT, tol, tol * mag);
     };
   // Cartesian <-> homogeneous (same scalar)
   same(H, runType(pb, type ^ 1), "switching between Cartesian and homogeneous points");
